@@ -19,7 +19,7 @@ def B(id, prop, expect, file, old, new, **kw):
 
 def B2(id, prop, expect, edits):
     BREAK.append({"id": id, "kind": "break", "props": [prop], "expect": expect,
-                  "edits": [dict(file=f, old=o, new=n) for f, o, n in edits]})
+                  "edits": [dict(file=e[0], old=e[1], new=e[2], **(e[3] if len(e) > 3 else {})) for e in edits]})
 
 
 ALL = ["C%02d" % i for i in range(1, 19)]
@@ -329,6 +329,11 @@ def seeded():
             continue
         meta = json.load(open(mp))
         prop = meta.get("breaks_property") or meta.get("property")
+        if meta.get("neutralised_at_head"):
+            # a later repair of /repo took away what the change relied on: on today's tree it no longer breaks the property
+            # (kept for the record; as an equivalence mutant the property's check must now stay silent on it)
+            out.append({"id": "SEED-" + os.path.basename(d), "kind": "equiv", "props": [prop], "edits": [], "patch": pp})
+            continue
         out.append({"id": "SEED-" + os.path.basename(d), "kind": "break", "props": [prop], "expect": prop + ":", "edits": [], "patch": pp})
     return out
 
@@ -3170,3 +3175,387 @@ B("F23-C17-worker-state-dropped-after-counter", "C17", "C17:R-C17.4:worker_pool:
                             let poison_dart = poison_dart;
 """, """                            let _thread_counter = ThreadCounterGuard(thread_counter);
 """)
+
+# ---- reverted fixes 24-28
+_FM = "src/flush/manager.rs"
+B2("F24-C17-keyspace-holds-strong-worker-sender", "C17", "C17:R-C17.5:keyspace::KeyspaceInner:strong-sender-worker_messager", [
+    (KS, "    pub(crate) worker_messager: flume::WeakSender<WorkerMessage>,", "    pub(crate) worker_messager: flume::Sender<WorkerMessage>,"),
+    (KS, "            worker_messager: db.worker_pool.sender.downgrade(),", "            worker_messager: db.worker_pool.sender.clone(),", {"all": True}),
+    (KS, """        if let Some(sender) = self.worker_messager.upgrade() {
+            sender.send(WorkerMessage::Flush).ok();
+        }""", """        self.worker_messager.send(WorkerMessage::Flush).ok();"""),
+    (KS, """        if let Some(sender) = self.worker_messager.upgrade() {
+            sender
+                .try_send(WorkerMessage::RotateMemtable(
+                    self.clone(),
+                    active_memtable.id(),
+                ))
+                .ok();
+        }""", """        self.worker_messager
+            .try_send(WorkerMessage::RotateMemtable(
+                self.clone(),
+                active_memtable.id(),
+            ))
+            .ok();"""),
+    (KS, """            if let Some(sender) = self.worker_messager.upgrade() {
+                sender.try_send(WorkerMessage::Compact(self.clone())).ok();
+            }
+""", """            self.worker_messager
+                .try_send(WorkerMessage::Compact(self.clone()))
+                .ok();
+"""),
+    (_ING, """                if let Some(sender) = self.keyspace.worker_messager.upgrade() {
+                    sender
+                        .try_send(WorkerMessage::Compact(self.keyspace.clone()))
+                        .ok();
+                }""", """                self.keyspace
+                    .worker_messager
+                    .try_send(WorkerMessage::Compact(self.keyspace.clone()))
+                    .ok();"""),
+])
+B("F24-C17-flush-manager-accepts-after-clear", "C17", "C17:R-C17.5:flush::manager::FlushManager::enqueue:refuses-after-clear", _FM,
+  """        if self.is_closed.load(std::sync::atomic::Ordering::Acquire) {
+            return;
+        }
+
+        self.sender.send(task).ok();""", """        self.sender.send(task).ok();""")
+B("F24-C17-flush-manager-no-recheck-after-send", "C17", "C17:R-C17.5:flush::manager::FlushManager::enqueue:refuses-after-clear", _FM,
+  """        // NOTE: Closed in the meantime: nobody will dequeue the task anymore
+        if self.is_closed.load(std::sync::atomic::Ordering::Acquire) {
+            let _ = self.receiver.drain().count();
+        }
+""", "")
+B("F24-C17-flush-manager-clear-does-not-close", "C17", "C17:R-C17.5:flush::manager::FlushManager::clear:clear-closes-before-draining", _FM,
+  """        self.is_closed
+            .store(true, std::sync::atomic::Ordering::Release);
+
+        let _ = self.receiver.drain().count();""", """        let _ = self.receiver.drain().count();""")
+B("F25-C17-populated-folder-reinitialised", "C17", "C17:R-C17.6:db::Database::create_or_recover:populated-folder-without-marker-is-not-initialised", DB,
+  """            if Self::holds_database_files(&config.path)? {
+                return Err(crate::Error::InvalidVersion(None));
+            }
+""", """            if Self::holds_database_files(&config.path)? {
+                log::warn!("version marker missing");
+            }
+""")
+B("F25-C17-journals-not-counted-as-database-files", "C17", "C17:R-C17.6:db::Database::holds_database_files:recognises-lock-keyspaces-and-journals", DB,
+  "            if is_journal || name == KEYSPACES_FOLDER || name == LOCK_FILE {", "            let _ = is_journal;\n            if name == KEYSPACES_FOLDER || name == LOCK_FILE {")
+B("F26-C18-callers-factory-survives", "C18", "C18:R-C18.4:db::Database::keyspace:callers-factory-is-dropped", DB,
+  "            opts.compaction_filter_factory = None;\n", "")
+B("F27-C13-worker-rotation-failure-poisons-late", "C13", "C13:R-C13.8:worker_pool::worker_tick:rotate_journal#1-poisons-before-the-journal-lock-is-released", WP,
+  """                    journal_manager
+                        .rotate_journal(&mut journal_writer, seqno_map)
+                        .inspect_err(|_| ctx.poison_dart.poison())?;""", """                    journal_manager.rotate_journal(&mut journal_writer, seqno_map)?;""")
+B("F27-C13-worker-pos-failure-poisons-late", "C13", "C13:R-C13.8:worker_pool::worker_tick:pos#1-poisons-before-the-journal-lock-is-released", WP,
+  """                let journal_pos = journal_writer
+                    .pos()
+                    .inspect_err(|_| ctx.poison_dart.poison())?;""", """                let journal_pos = journal_writer.pos()?;""")
+B("F27-C13-db-persist-checks-flag-before-lock", "C13", "C13:R-C13.8:db::Database::persist:flag-checked-under-the-journal-lock", DB,
+  """        let mut journal_writer = self.supervisor.journal.get_writer()?;
+
+        // IMPORTANT: Check (and set) the poisoned flag after getting journal mutex, otherwise TOCTOU
+        if self.is_poisoned.is_poisoned() {
+            return Err(crate::Error::Poisoned);
+        }
+""", """        if self.is_poisoned.is_poisoned() {
+            return Err(crate::Error::Poisoned);
+        }
+
+        let mut journal_writer = self.supervisor.journal.get_writer()?;
+""")
+B("F27-C13-db-persist-poisons-after-unlock", "C13", "C13:R-C13.8:db::Database::persist:persist#1-poisons-before-the-journal-lock-is-released", DB,
+  """        if let Err(e) = journal_writer.persist(mode) {
+            self.is_poisoned.poison();
+""", """        let res = journal_writer.persist(mode);
+        drop(journal_writer);
+        if let Err(e) = res {
+            self.is_poisoned.poison();
+""")
+B("F28-C02-with-capacity-durability-none", "C02", "C02:R-C02.9:batch::WriteBatch::with_capacity", BATCH,
+  """        let durability = if db.config.manual_journal_persist {
+            None
+        } else {
+            Some(PersistMode::Buffer)
+        };
+
+        Self {
+            data: Vec::with_capacity(capacity),
+            db,
+            durability,
+        }""", """        Self {
+            data: Vec::with_capacity(capacity),
+            db,
+            durability: None,
+        }""")
+B("C02-db-batch-default-inverted", "C02", "C02:R-C02.9:db::Database::batch", DB,
+  "        if !self.config.manual_journal_persist {\n            batch = batch.durability(Some(PersistMode::Buffer));", "        if self.config.manual_journal_persist {\n            batch = batch.durability(Some(PersistMode::Buffer));")
+B("C02-optimistic-write-tx-no-default-durability", "C02", "C02:R-C02.9:tx::optimistic::OptimisticTxDatabase::write_tx", "src/tx/optimistic/mod.rs",
+  """        if !self.inner.config.manual_journal_persist {
+            write_tx = write_tx.durability(Some(PersistMode::Buffer));
+        }
+""", """        if !self.inner.config.manual_journal_persist {
+            write_tx = write_tx.durability(None);
+        }
+""")
+E(  "EQ-with-capacity-delegates-to-batch-default", BATCH, """        let durability = if db.config.manual_journal_persist {
+            None
+        } else {
+            Some(PersistMode::Buffer)
+        };
+
+        Self {
+            data: Vec::with_capacity(capacity),
+            db,
+            durability,
+        }""", """        let mut durability = Some(PersistMode::Buffer);
+        if db.config.manual_journal_persist {
+            durability = None;
+        }
+
+        Self {
+            data: Vec::with_capacity(capacity),
+            db,
+            durability,
+        }""", props=["C02", "C09"])
+E("EQ-worker-rotation-poisons-in-match", WP, """                    journal_manager
+                        .rotate_journal(&mut journal_writer, seqno_map)
+                        .inspect_err(|_| ctx.poison_dart.poison())?;""", """                    if let Err(e) = journal_manager.rotate_journal(&mut journal_writer, seqno_map) {
+                        ctx.poison_dart.poison();
+                        return Err(e);
+                    }""", props=["C13", "C14", "C03"])
+E("EQ-flush-manager-closed-check-in-helper", _FM, """    pub fn enqueue(&self, task: Arc<Task>) {
+        if self.is_closed.load(std::sync::atomic::Ordering::Acquire) {
+            return;
+        }
+""", """    pub fn enqueue(&self, task: Arc<Task>) {
+        let closed = self.is_closed.load(std::sync::atomic::Ordering::Acquire);
+        if closed {
+            return;
+        }
+""", props=["C17", "C14"])
+E("EQ-factory-cleared-with-take", DB, "            opts.compaction_filter_factory = None;\n", "            opts.compaction_filter_factory = Option::None;\n", props=["C18"])
+
+# ---- contexts refreshed after repairs 24-32
+_DBP_ERR = """        if let Err(e) = journal_writer.persist(mode) {
+            self.is_poisoned.poison();
+
+            log::error!("""
+_override("C13-db-persist-swallow", [(DB, _DBP_ERR, """        if let Err(e) = journal_writer.persist(mode) {
+            log::error!(""")])
+_override("C13-worker-error-no-poison", [(WP, """                                        poison_dart.poison();
+                                        log::error!("Worker #{i} crashed: {e:?}");
+                                        return Err(e);""", """                                        let _ = &poison_dart;
+                                        log::error!("Worker #{i} crashed: {e:?}");
+                                        return Err(e);"""),
+                                         (WP, """                    journal_manager
+                        .rotate_journal(&mut journal_writer, seqno_map)
+                        .inspect_err(|_| ctx.poison_dart.poison())?;""", """                    journal_manager.rotate_journal(&mut journal_writer, seqno_map)?;""")])
+_ROT_TAIL = """        drop(journal_writer);
+
+        self.supervisor.flush_manager.enqueue(Arc::new(FlushTask {
+            keyspace: self.clone(),
+        }));
+
+        if let Some(sender) = self.worker_messager.upgrade() {
+            sender.send(WorkerMessage::Flush).ok();
+        }
+"""
+_override("C14-rotate-drop-late", [(KS, _ROT_TAIL, """        self.supervisor.flush_manager.enqueue(Arc::new(FlushTask {
+            keyspace: self.clone(),
+        }));
+
+        if let Some(sender) = self.worker_messager.upgrade() {
+            sender.send(WorkerMessage::Flush).ok();
+        }
+
+        drop(journal_writer);
+""")])
+_override("C09-db-persist-downgrades", [(DB, "        if let Err(e) = journal_writer.persist(mode) {", """        let mode = if mode == PersistMode::SyncAll { PersistMode::SyncData } else { mode };
+        if let Err(e) = journal_writer.persist(mode) {""")])
+_WT_ROT = """                    let seqno_map = {
+                        #[expect(clippy::expect_used)]
+                        let keyspaces = ctx.supervisor.keyspaces.write().expect("lock is poisoned");
+
+                        ctx.supervisor.build_seqno_map(&keyspaces)
+                    };
+
+                    journal_manager
+                        .rotate_journal(&mut journal_writer, seqno_map)
+                        .inspect_err(|_| ctx.poison_dart.poison())?;"""
+_override("C10-seqno-map-after-rotate", [(WP, _WT_ROT, """                    journal_manager
+                        .rotate_journal(&mut journal_writer, Vec::new())
+                        .inspect_err(|_| ctx.poison_dart.poison())?;
+                    let _seqno_map = {
+                        #[expect(clippy::expect_used)]
+                        let keyspaces = ctx.supervisor.keyspaces.write().expect("lock is poisoned");
+
+                        ctx.supervisor.build_seqno_map(&keyspaces)
+                    };""")])
+_override("C10-rotate-outside-lock", [(WP, """                let mut journal_writer = ctx.supervisor.journal.get_writer()?;
+
+                // IMPORTANT: A journal failure has to poison the database while the journal lock is still held,
+                // otherwise writers are still acknowledged until the worker loop gets around to poisoning
+                let journal_pos = journal_writer
+                    .pos()
+                    .inspect_err(|_| ctx.poison_dart.poison())?;
+""", """                let journal_pos = ctx
+                    .supervisor
+                    .journal
+                    .get_writer()?
+                    .pos()
+                    .inspect_err(|_| ctx.poison_dart.poison())?;
+                let mut journal_writer = ctx.supervisor.journal.get_writer()?;
+""")])
+_ENQ = """        self.supervisor.flush_manager.enqueue(Arc::new(FlushTask {
+            keyspace: self.clone(),
+        }));
+
+        if let Some(sender) = self.worker_messager.upgrade() {
+            sender.send(WorkerMessage::Flush).ok();
+        }
+"""
+_override("S4-C14-flush-task-only-if-queue-empty", [(KS, _ENQ, """        if self.supervisor.flush_manager.len() == 0 {
+            self.supervisor.flush_manager.enqueue(Arc::new(FlushTask {
+                keyspace: self.clone(),
+            }));
+
+            if let Some(sender) = self.worker_messager.upgrade() {
+                sender.send(WorkerMessage::Flush).ok();
+            }
+        }
+""")])
+_override("EQ-rotate-flush-task-local", [(KS, _ENQ, """        let task = Arc::new(FlushTask {
+            keyspace: self.clone(),
+        });
+        self.supervisor.flush_manager.enqueue(task);
+
+        if let Some(sender) = self.worker_messager.upgrade() {
+            let _ = sender.send(WorkerMessage::Flush);
+        }
+""")])
+_WK_HEAD2 = """                            let _thread_counter = ThreadCounterGuard(thread_counter);
+                            let worker_state = worker_state;
+                            let poison_dart = poison_dart;
+
+                            loop {
+                                match worker_tick(&worker_state) {
+                                    Ok(should_abort) => {
+                                        if should_abort {
+                                            log::debug!(
+                                                "Worker #{i} closes because DB is dropping"
+                                            );
+                                            return Ok(());"""
+_override("EQ-worker-explicit-decrements", [(WP, _WK_HEAD2, """                            let worker_state = worker_state;
+                            let poison_dart = poison_dart;
+
+                            loop {
+                                match worker_tick(&worker_state) {
+                                    Ok(should_abort) => {
+                                        if should_abort {
+                                            log::debug!(
+                                                "Worker #{i} closes because DB is dropping"
+                                            );
+                                            drop(worker_state);
+                                            drop(poison_dart);
+                                            thread_counter.fetch_sub(1, Relaxed);
+                                            return Ok(());"""),
+                                            (WP, """                                        poison_dart.poison();
+                                        log::error!("Worker #{i} crashed: {e:?}");
+                                        return Err(e);""", """                                        poison_dart.poison();
+                                        log::error!("Worker #{i} crashed: {e:?}");
+                                        drop(worker_state);
+                                        drop(poison_dart);
+                                        thread_counter.fetch_sub(1, Relaxed);
+                                        return Err(e);""")])
+
+# ---- reverted fixes 29-32
+B("F29-C04-remove-weak-applies-strong-tombstone", "C04", "C04:R-C04.7:keyspace::Keyspace::remove_weak", KS,
+  "        let (item_size, memtable_size) = self.tree.remove_weak(key, seqno);", "        let (item_size, memtable_size) = self.tree.remove(key, seqno);")
+B("F29-C01-remove-weak-applies-strong-tombstone", "C01", "C01:R-C01.1:keyspace::Keyspace::remove_weak", KS,
+  "        let (item_size, memtable_size) = self.tree.remove_weak(key, seqno);", "        let (item_size, memtable_size) = self.tree.remove(key, seqno);")
+_SEAL = """        let mut journal_writer = journal_writer;
+        journal_writer
+            .persist(crate::PersistMode::Buffer)
+            .inspect_err(|_| self.is_poisoned.poison())?;
+"""
+B("F30-C03-seal-without-writing-out-the-journal-buffer", "C03", "C03:R-C03.9:keyspace::Keyspace::inner_rotate_memtable", KS, _SEAL, "")
+B("C03-journal-buffer-written-out-after-sealing", "C03", "C03:R-C03.9:keyspace::Keyspace::inner_rotate_memtable", KS,
+  _SEAL + """
+        // Rotate memtable
+        let Some(_) = self.tree.rotate_memtable() else {
+            log::debug!("Got no sealed memtable, someone beat us to it");
+            return Ok(false);
+        };
+""", """
+        // Rotate memtable
+        let Some(_) = self.tree.rotate_memtable() else {
+            log::debug!("Got no sealed memtable, someone beat us to it");
+            return Ok(false);
+        };
+""" + _SEAL)
+B("C13-seal-persist-failure-does-not-poison", "C13", "C13:R-C13.8:keyspace::Keyspace::inner_rotate_memtable", KS, _SEAL,
+  """        let mut journal_writer = journal_writer;
+        journal_writer.persist(crate::PersistMode::Buffer)?;
+""")
+B("F31-C14-get-reads-at-max", "C14", "C14:R-C14.6:keyspace::Keyspace::get", KS,
+  """        let nonce = self.supervisor.snapshot_tracker.open();
+        Ok(self.tree.get(key, nonce.instant)?)""", """        Ok(self.tree.get(key, lsm_tree::SeqNo::MAX)?)""")
+B("F31-C14-contains-key-reads-at-max", "C14", "C14:R-C14.6:keyspace::Keyspace::contains_key", KS,
+  """        let nonce = self.supervisor.snapshot_tracker.open();
+        self.tree
+            .contains_key(key, nonce.instant)
+            .map_err(Into::into)""", """        self.tree.contains_key(key, lsm_tree::SeqNo::MAX).map_err(Into::into)""")
+B("C14-size-of-reads-at-seqno-counter", "C14", "C14:R-C14.6:keyspace::Keyspace::size_of", KS,
+  """        let nonce = self.supervisor.snapshot_tracker.open();
+        Ok(self.tree.size_of(key, nonce.instant)?)""", """        Ok(self.tree.size_of(key, self.supervisor.seqno.get())?)""")
+_HALT = """            if let Some(sender) = self.worker_messager.upgrade() {
+                sender.try_send(WorkerMessage::Compact(self.clone())).ok();
+            }
+
+            std::thread::sleep(Duration::from_millis(10));"""
+B("F32-C14-write-halt-only-sleeps", "C14", "C14:R-C14.7:keyspace::Keyspace::check_write_halt", KS, _HALT,
+  "            std::thread::sleep(Duration::from_millis(10));")
+B("C14-write-halt-nudges-once-before-the-loop", "C14", "C14:R-C14.7:keyspace::Keyspace::check_write_halt", KS,
+  """        while self.tree.l0_run_count() >= 30 {
+            // NOTE: Ask for the compaction we are waiting for: compaction requests are only sent after a flush,
+            // and all of them may have been consumed (and declined) while another compaction was still running
+            if let Some(sender) = self.worker_messager.upgrade() {
+                sender.try_send(WorkerMessage::Compact(self.clone())).ok();
+            }
+
+            std::thread::sleep(Duration::from_millis(10));
+        }""", """        if let Some(sender) = self.worker_messager.upgrade() {
+            sender.try_send(WorkerMessage::Compact(self.clone())).ok();
+        }
+        while self.tree.l0_run_count() >= 30 {
+            std::thread::sleep(Duration::from_millis(10));
+        }""")
+E("EQ-write-halt-sender-upgraded-once", KS, """        while self.tree.l0_run_count() >= 30 {
+            // NOTE: Ask for the compaction we are waiting for: compaction requests are only sent after a flush,
+            // and all of them may have been consumed (and declined) while another compaction was still running
+            if let Some(sender) = self.worker_messager.upgrade() {
+                sender.try_send(WorkerMessage::Compact(self.clone())).ok();
+            }
+
+            std::thread::sleep(Duration::from_millis(10));
+        }""", """        while self.tree.l0_run_count() >= 30 {
+            match self.worker_messager.upgrade() {
+                Some(sender) => {
+                    let _ = sender.try_send(WorkerMessage::Compact(self.clone()));
+                }
+                None => {}
+            }
+
+            std::thread::sleep(Duration::from_millis(10));
+        }""", props=["C14", "C17"])
+E("EQ-get-nonce-bound-to-instant-local", KS, """        let nonce = self.supervisor.snapshot_tracker.open();
+        Ok(self.tree.get(key, nonce.instant)?)""", """        let nonce = self.supervisor.snapshot_tracker.open();
+        let instant = nonce.instant;
+        let item = self.tree.get(key, instant)?;
+        Ok(item)""", props=["C14", "C05", "C06", "C01"])
+E("EQ-seal-persist-in-match", KS, _SEAL, """        let mut journal_writer = journal_writer;
+        if let Err(e) = journal_writer.persist(crate::PersistMode::Buffer) {
+            self.is_poisoned.poison();
+            return Err(e.into());
+        }
+""", props=["C03", "C13", "C14", "C02"])
